@@ -183,7 +183,14 @@ func (r *DynamicHostResolver) addressResolved(hostname string, addrs []string, e
 }
 
 func (r *DynamicHostResolver) notifyAddressChanged(hostname string, entry *AddressWithCallback, newAddrs []string, removedAddrs []string) {
-	for _, callback := range entry.callbacks {
+	// ResolveHost may append to entry.callbacks at any time: take a snapshot
+	// under the lock and call the callbacks without holding it
+	r.Lock()
+	callbacks := make([]IPResolvedCallback, len(entry.callbacks))
+	copy(callbacks, entry.callbacks)
+	r.Unlock()
+
+	for _, callback := range callbacks {
 		callback(hostname, newAddrs, removedAddrs)
 	}
 
